@@ -8,7 +8,7 @@ TRUSTED_EXTRA = ["Model/Value.v models environment.rs (LexicalScope) and ValueRe
 
 
 def explore(ctx):
-    n = 900 if ctx.quick else 20000
+    n = 3000 if ctx.quick else 20000
     cases = []
     tot = {}
     for k in range(n):
